@@ -23,7 +23,7 @@ def fused_cast_constant_of_shape(op, shape: ir.Value, scalar: ir.Attr, dtype: ir
 
 
 def cast_constant_of_shape_without_value(op, shape, dtype):
-    constant = op.ConstantOfShape(shape)
+    constant = op.ConstantOfShape(shape, _allow_other_attributes=False)
     return op.Cast(constant, to=dtype)
 
 
